@@ -99,6 +99,9 @@ def ops_for(kind):
     for g in ["generate_fa_spectrum", "gen_fa_spectrum", "generate_smooth_fa_spectrum", "gen_smooth_fa_spectrum"]:
         ops[g] = _call(g)
     ops["reset_values"] = lambda o: o.reset_values(np.array(o.values) * 0.5 + np.linspace(0.1, 0.4, o.npts))
+    ops["reset_values_longer"] = lambda o: o.reset_values(np.concatenate([np.array(o.values) * 0.7, 0.3 * np.cos(np.arange(37) / 2.0)]))
+    ops["reset_values_shorter"] = lambda o: o.reset_values(np.array(o.values)[: max(24, o.npts - 9)] * 1.1 + 0.05)
+    ops["reset_values_list"] = lambda o: o.reset_values([float(x) * 0.8 + 0.02 for x in o.values])
     ops["add_constant"] = _call("add_constant", 0.37)
     ops["add_series"] = lambda o: o.add_series(0.1 * np.sin(np.arange(o.npts) / 1.7))
     ops["add_signal"] = _add_signal
@@ -114,7 +117,7 @@ def ops_for(kind):
     ops["set_smooth_freq_range"] = _setattr("smooth_freq_range", lambda o: (0.45, 17.0) if abs(o.smooth_fa_freqs[0] - 0.45) > 1e-9 else (0.65, 21.0))
     ops["set_smooth_freq_points"] = _setattr("smooth_freq_points", lambda o: 14 if len(o.smooth_fa_freqs) != 14 else 10)
     ops["gen_smooth_fa_spectrum_freqs"] = lambda o: o.gen_smooth_fa_spectrum(smooth_fa_freqs=other_freqs(o))
-    ops["get_section_average"] = _call("get_section_average", start=0, end=0.2)
+    ops["get_section_average"] = _call("get_section_average", start=0, end=0.1)
     ops["add_series_bad_length"] = _bad_length
     if kind == "AccSignal":
         for r in ["velocity", "displacement", "pga", "pgv", "pgd", "s_a", "s_v", "s_d", "response_times"]:
